@@ -38,6 +38,17 @@ AbsBroadcastAxis(x, y) ==     \* both operands have this axis; the result extent
       [] x[1] \in {"const", "clip"} /\ y[1] \in {"const", "clip"} -> <<"clip", Max2(x[2], y[2])>>
       [] OTHER -> <<"dyn", 0>>
 
+\* ---------------- joining the axes of a shape into ONE index type (what reading an extent at a run-time position returns:
+\* meta::common_type of the axis types).  A range is <<lo, hi>>, <<>> stands for a plain (unbounded) integer.
+\* clipped_integer_t<T,0,n> has range 0..n; a value outside the range of the joined type is clipped on conversion.
+SeqMax(q) == CHOOSE m \in {q[i] : i \in 1..Len(q)} : \A i \in 1..Len(q) : q[i] <= m
+SeqMin(q) == CHOOSE m \in {q[i] : i \in 1..Len(q)} : \A i \in 1..Len(q) : m <= q[i]
+RangeOfAxis(x) == CASE x[1] = "const" -> <<x[2], x[2]>> [] x[1] = "clip" -> <<0, x[2]>> [] OTHER -> <<>>
+RangeContains(join, rng) == join = <<>> \/ (rng # <<>> /\ join[1] <= rng[1] /\ rng[2] <= join[2])
+AbsJoin(a) == IF \E i \in 1..Len(a) : a[i][1] = "dyn" THEN <<>>
+              ELSE <<SeqMin([i \in 1..Len(a) |-> RangeOfAxis(a[i])[1]]), SeqMax([i \in 1..Len(a) |-> RangeOfAxis(a[i])[2]])>>
+ClipInto(join, v) == IF join = <<>> THEN v ELSE IF v > join[2] THEN join[2] ELSE IF v < join[1] THEN join[1] ELSE v
+
 VARIABLES abs, abs2
 vars == <<abs, abs2>>
 Init == abs \in UNION {[1..d -> AbsAxis] : d \in 1..2} /\ abs2 \in UNION {[1..d -> AbsAxis] : d \in 1..2}
@@ -53,4 +64,7 @@ SoundReduce == \A s \in Gamma(abs) : \A ax \in 1..Len(abs) : \A keep \in BOOLEAN
 SoundBroadcast == Len(abs) = Len(abs2) => \A s \in Gamma(abs), t \in Gamma(abs2) :
     (\A i \in 1..Len(s) : s[i] = t[i] \/ s[i] = 1 \/ t[i] = 1) =>
         Sound(TraitsOf([i \in 1..Len(abs) |-> AbsBroadcastAxis(abs[i], abs2[i])]), [i \in 1..Len(s) |-> Max2(s[i], t[i])])
+\* every extent of every instance survives the conversion to the joined type, and the join is the smallest such range
+SoundJoin == /\ \A i \in 1..Len(abs) : RangeContains(AbsJoin(abs), RangeOfAxis(abs[i]))
+             /\ \A s \in Gamma(abs) : \A i \in 1..Len(abs) : ClipInto(AbsJoin(abs), s[i]) = s[i]
 =================================================================================
